@@ -17,7 +17,7 @@ from ..lib.report import Report
 from ..drivers import wrapdrv
 
 PID = 'C18'
-TLC_FIELDS = ('tool', 'W', 'cwmin', 'dot', 'exc', 'exp', 'out')
+TLC_FIELDS = ('tool', 'W', 'cwmin', 'ind', 'iw', 'eop', 'dot', 'exc', 'exp', 'out')
 ITEM_FIELDS = ('t', 'sec', 'w', 'st', 'dotc', 'tabs', 'k', 'ins')
 
 
@@ -53,8 +53,9 @@ def slim(c):
     return d
 
 
-def vacuity(cases, fails):
-    """every class the property quantifies over must actually have been exercised"""
+def vacuity(cases, strict):
+    """every class the property quantifies over must actually have been exercised (strict: raise if not; when
+    the tools misbehave the measured classes shift - then the violations are the message, not the coverage)"""
     n = collections.Counter()
     widths = collections.defaultdict(set)
     for c in cases:
@@ -106,8 +107,9 @@ def vacuity(cases, fails):
         n['widths-covered:' + cls] = len(widths[cls])
         if len(widths[cls]) < 150:
             missing.append('%s at only %d of 161 widths' % (cls, len(widths[cls])))
-    if missing:
+    if missing and strict:
         raise MachineryError('C18 generator did not exercise: %s' % ', '.join(missing))
+    n['classes-missing'] = len(missing)
     return n
 
 
@@ -175,7 +177,7 @@ def run(tier):
                       dict(case=c['key'], clause=clause, item=item, doc=d,
                            inputs=wrapdrv.reproduce(d['seed'], d['docid'], d['W'], d['kind'], wd),
                            exp=c['exp'][int(ei) - 1] if ei and int(ei) <= len(c['exp']) else None, out=c['out']))
-    counts = vacuity(cases, allfails)
+    counts = vacuity(cases, strict=not rep.violations)
     rep.drift = drift + len(bare_lf)
     rep.extra['drift_wrap_points_or_row_packing'] = drift
     rep.extra['drift_bare_lf_in_crlf_mode'] = dict(
@@ -207,3 +209,26 @@ def run(tier):
                        'a line is measured in characters; a tab indent counts 8 columns for the width rule, 1 for the warning']
     rmworkdir('c18')
     return rep.finish()
+
+
+def replay(path):
+    """./check C18 --replay replays/C18-n.json : regenerate that one document, rerun the three tools, judge again"""
+    import json
+    with open(path) as f:
+        d = json.load(f)
+    doc = (d.get('replay') or {}).get('doc')
+    print('replay of %s: key %s' % (path, d.get('key')))
+    if not doc:
+        print('  (model violation: rerun ./check C18)')
+        return 0
+    wd = workdir('c18-replay')
+    cbuild.repo_only()
+    cases = wrapdrv.worker((os.path.join(wd, 'p0'), [(doc['seed'], doc['docid'], doc['W'], doc['kind'])]))
+    r, fails = tlc.judge('doc', 'WrapCases', 'WrapCases.cfg', [slim(c) for c in cases], casefile=os.path.join(wd, 'cases.json'))
+    for i, clause in fails:
+        cl, _, ei = clause.partition('@')
+        item = cases[i]['exp'][int(ei) - 1]['name'] if ei else 'entry'
+        print('  %s: clause %s at item %s (%s)' % (cases[i]['key'], cl, ei, item))
+    rmworkdir('c18-replay')
+    print('VIOLATION reproduced' if fails else 'no violation on replay')
+    return 1 if fails else 0
